@@ -25,11 +25,13 @@ pub fn fix_fn_param_idents(sig: &mut syn::Signature) {
         return;
     }
 
-    if lift_inner_pat_idents(sig).is_ok() {
-        return;
+    if !lift_inner_pat_idents(sig).is_ok() {
+        autogenerate_for_non_idents(sig);
     }
 
-    autogenerate_for_non_idents(sig);
+    // an identifier lifted out of a pattern (`N(foo): N`) or generated for one
+    // can be spelled like the fn as well
+    fix_ident_conflicts(sig);
 }
 
 fn fix_ident_conflicts(sig: &mut syn::Signature) -> ParamStatus {
